@@ -147,6 +147,27 @@ def sc_lockstep_pushes(eng, fid, fn, it, ob):
     return n >= 2, "%d functions push to Mp4Track.trafs and .moof_offsets, always together" % n
 
 
+def sc_helper_index(name, need_present=False):
+    """the accepted invariant rests on a postcondition of a private helper; lookup_post re-derives it from the helper's MIR"""
+    def f(eng, fid, fn, it, ob):
+        import lookup_post
+        r = lookup_post.check(eng.fx, name)
+        if not r["ok"]:
+            return False, "postcondition of Mp4Track::%s no longer derivable: %s" % (name, r["why"])
+        if need_present and not r["present"]:
+            return False, "Mp4Track::%s can return the index of a fragment whose trun was not tested to be present" % name
+        return True, "Mp4Track::%s returns a position in its table (%s)" % (name, r["why"])
+    return f
+
+
+def sc_both(a, b):
+    def f(eng, fid, fn, it, ob):
+        ok1, w1 = a(eng, fid, fn, it, ob)
+        ok2, w2 = b(eng, fid, fn, it, ob)
+        return ok1 and ok2, "%s; %s" % (w1, w2)
+    return f
+
+
 def K(prefix):
     return lambda fid, fn, ob, key: key.startswith(prefix)
 
@@ -177,17 +198,17 @@ ACCEPTED = [
      "reason": "loop invariant offset <= global_idx: offset only grows by sample_count on the path where sample_count <= global_idx - offset"},
     {"match": K("Mp4Track::find_traf_idx_and_sample_idx|unwrap_opt:expect|num::checked_add(offset, sample_count)"), "side": sc_trusted("loop invariant"),
      "reason": "checked_add is reached only when sample_count <= global_idx - offset, so offset + sample_count <= global_idx <= u32::MAX: the expect cannot fire"},
-    {"match": K("Mp4Track::sample_offset|unwrap_opt:unwrap|slice::get(Deref::deref(stsc.entries), stsc_index)"), "side": sc_trusted("stsc_index postcondition"),
+    {"match": K("Mp4Track::sample_offset|unwrap_opt:unwrap|slice::get(Deref::deref(stsc.entries), stsc_index)"), "side": sc_helper_index("stsc_index"),
      "reason": "stsc_index returns i-1 for an enumerate index i >= 1 or len-1 after the non-empty check: always < entries.len()"},
-    {"match": K("Mp4Track::sample_rendering_offset|unwrap_opt:unwrap|slice::get(Deref::deref(ctts.entries), ctts_index)"), "side": sc_trusted("ctts_index postcondition"),
+    {"match": K("Mp4Track::sample_rendering_offset|unwrap_opt:unwrap|slice::get(Deref::deref(ctts.entries), ctts_index)"), "side": sc_helper_index("ctts_index"),
      "reason": "ctts_index returns an enumerate index of ctts.entries"},
     {"match": K("Mp4Track::ctts_index|unwrap_opt:unwrap|Option::as_ref(self.trak.mdia.minf.stbl.ctts)"), "side": sc_trusted("only caller tests Some"),
      "reason": "private helper, its only caller runs it inside `if let Some(ctts) = stbl.ctts`"},
-    {"match": lambda fid, fn, ob, key: "|index:index|self.trafs, traf_idx" in key, "side": sc_trusted("find_traf postcondition"),
+    {"match": lambda fid, fn, ob, key: "|index:index|self.trafs, traf_idx" in key, "side": sc_helper_index("find_traf_idx_and_sample_idx"),
      "reason": "traf_idx comes from find_traf_idx_and_sample_idx, which iterates 0..self.trafs.len()"},
-    {"match": K("Mp4Track::sample_offset|index:index|self.moof_offsets, traf_idx"), "side": sc_lockstep_pushes,
+    {"match": K("Mp4Track::sample_offset|index:index|self.moof_offsets, traf_idx"), "side": sc_both(sc_lockstep_pushes, sc_helper_index("find_traf_idx_and_sample_idx")),
      "reason": "moof_offsets has the same length as trafs"},
-    {"match": K("Mp4Track::sample_size|unwrap_opt:unwrap|Option::as_ref(Index::index(self.trafs, traf_idx).trun)"), "side": sc_trusted("find_traf postcondition"),
+    {"match": K("Mp4Track::sample_size|unwrap_opt:unwrap|Option::as_ref(Index::index(self.trafs, traf_idx).trun)"), "side": sc_helper_index("find_traf_idx_and_sample_idx", need_present=True),
      "reason": "find_traf_idx_and_sample_idx only returns indices of fragments whose trun is Some"},
     {"match": K("Mp4Track::sample_offset|Overflow(Sub)|sample_id, sample_idx as u32"), "side": sc_trusted("find_traf postcondition"),
      "reason": "sample_idx = global_idx - offset <= sample_id - 1"},
@@ -223,7 +244,7 @@ def build_engine(fx, chk):
     chk.anchor("PF", "Mp4Reader::read_header", rh)
     chk.anchor("PF", "Mp4Reader::read_fragment_header", rfh)
     chk.floor("PF", "reader entry points", len(ents), 200)
-    eng = panicfree.Engine(fx, chk, ents, asm, ACCEPTED, field_exclude=set())
+    eng = panicfree.Engine(fx, chk, ents, asm, ACCEPTED, profile=getattr(fx, "profile", "dev"), field_exclude=set())
     return eng, ents
 
 
